@@ -6,6 +6,17 @@ pub use real_tokio::*;
 
 pub mod task {
     pub use real_tokio::task::*;
+    use std::cell::RefCell;
+
+    thread_local! {
+        static BLOCKING: RefCell<Vec<simrt::JoinHandle>> = const { RefCell::new(Vec::new()) };
+    }
+
+    /// Handles of the simulated threads started by `spawn_blocking` from this thread since the
+    /// last call (lets the simulation driver wait for the background scan in simulated time).
+    pub fn take_blocking_handles() -> Vec<simrt::JoinHandle> {
+        BLOCKING.with(|b| std::mem::take(&mut *b.borrow_mut()))
+    }
 
     pub fn spawn_blocking<F, R>(f: F) -> JoinHandle<R>
     where
@@ -16,10 +27,11 @@ pub mod task {
             return real_tokio::task::spawn_blocking(f);
         }
         let (tx, rx) = real_tokio::sync::oneshot::channel::<Result<R, String>>();
-        let _h = simrt::spawn(move || {
+        let h = simrt::spawn(move || {
             let r = simrt::catch(f);
             let _ = tx.send(r);
         });
+        BLOCKING.with(|b| b.borrow_mut().push(h));
         real_tokio::spawn(async move {
             match rx.await {
                 Ok(Ok(r)) => r,
